@@ -1479,6 +1479,16 @@ class Interp:
                     c -= 1 << bits
             return Lin.c(c)
         alo, ahi = s.facts.lower(a), s.facts.upper(a)
+        if op in ('/', '%') and b.is_const() and b.const > 0 and (b.const & (b.const - 1)) == 0 and alo >= 0:
+            # division / remainder of a non-negative value by a power of two: the same value as the
+            # shift / mask, and named the same way (one canonical derived atom for both spellings)
+            s.ev('ob', n, ob='divzero', ok=True)
+            if b.const == 1:
+                return a if op == '/' else Lin.c(0)
+            if op == '/':
+                op, b = '>>', Lin.c(b.const.bit_length() - 1)
+            else:
+                op, b = '&', Lin.c(b.const - 1)
         blo, bhi = s.facts.lower(b), s.facts.upper(b)
         name = '%s(%s,%s)' % ({'*': 'mul', '/': 'div', '%': 'mod', '<<': 'shl', '>>': 'shr', '&': 'and', '|': 'or', '^': 'xor'}[op],
                               lin_repr(a), lin_repr(b))
